@@ -88,8 +88,33 @@ def run(ctx, prog, only=None):
         v = apps_[0].args[1]
         if want == 'verification_method':
             return None if strip(v) == ('leaf', 'method') else 'appended value is not the method'
+        # an embedded method must not take an id that a relationship already *references* (the reference would alias it, and
+        # in its own set the append would silently do nothing): every relationship set is asked for the id first
+        asked = set()
+        for c in p.calls:
+            if re.search(r'Queryable.*>::query$|::query$|::contains$', c.name) and apps(('x', tuple(c.args)), r'VerificationMethod::id$') and p.took(c, 'None'):
+                so = set_of(c.args[0])
+                if so:
+                    asked.add(so)
+        # ... or through one `any` over all of them whose closure queries the set for the id
+        for c in p.calls:
+            if re.search(r'Iterator>::any$', c.name) and p.took(c.ret, 'false'):
+                sets_in = set()
+                for s_ in subterms(('x', tuple(c.args))):
+                    so = set_of(s_) if isinstance(s_, tuple) and s_ and s_[0] in ('field', 'ref', 'deref') else None
+                    if so:
+                        sets_in.add(so)
+                cl = [x for x in subterms(('x', tuple(c.args))) if isinstance(x, tuple) and x and x[0] == 'fn' and str(x[1]).startswith('{closure@')]
+                if cl:
+                    cands = prog.closures.get(cl[0][1]) or []
+                    body = ' '.join(str(b.term) for g in cands for b in g.blocks.values() if b.term)
+                    if re.search(r'query', body) and mentions(cl[0], r'^method$'):
+                        asked |= sets_in
+        missing = sorted(set(REL.values()) - asked)
+        if missing:
+            return 'embedded method inserted without checking that its id is not already referenced from %s' % ', '.join(missing)
         return None if (v[0] == 'agg' and str(v[2]) == 'Embed' and strip(v[3][0]) == ('leaf', 'method')) else 'relationship method not embedded as given'
-    A.require('insert_method/unique-id-then-exactly-the-set-of-the-scope', paths, r_im, replay=REPLAY)
+    A.require('insert_method/unique-id-then-exactly-the-set-of-the-scope', paths, r_im, replay={'scenario': 'document_ops', 'cex': {'only': '[insert]'}})
 
     # ------------------------------------------------------------------------------------------- remove_method_and_scope
     # the id is removed from every relationship set (references included) on every way out; unless an embedded method
